@@ -43,8 +43,8 @@ CUSTOM = {':--al': 'a, .x', ':--b-1': 'b'}
 
 
 def plan(tier, seed):
-    n = 96 if tier == 'quick' else 1600
-    per = 40 if tier == 'quick' else 160
+    n = 96 if tier == 'quick' else 800
+    per = 30 if tier == 'quick' else 120
     return [{'seed': seed * 7919 + i, 'n': per, 'combos': 16 if tier == 'quick' else 40} for i in range(n)]
 
 
@@ -223,7 +223,7 @@ def replay(w):
 
 def inconclusive(cn, tier):
     out = []
-    if cn.get('nontrivial', 0) < (40000 if tier == 'quick' else 2000000):
+    if cn.get('nontrivial', 0) < (40000 if tier == 'quick' else 1000000):
         out.append('too few effective respellings: %d' % cn.get('nontrivial', 0))
     for r in ('ws', 'esc', 'quote', 'case', 'combo'):
         if cn.get('rule:' + r, 0) < 1000:
